@@ -1,0 +1,8 @@
+//go:build verif
+
+package otelstorage
+
+// Contracts for the deductive verifier in /verif (govc). Comment-only: no code is added.
+
+//@ func NewTimestampFromTime
+//@   inline
